@@ -777,6 +777,110 @@ def _step_slices(tier):
     return out
 
 
+def adapter_completion_seam(sl):
+    """Contract (3) of the modelled executor run (DESIGN 2.2), checked on the real AsyncIoAdapter.run: a worker that hosts ANY subset of the
+    clients of the completed-by task (the other clients may live on other workers) sets `complete` when its own clients of that task have
+    finished, which ends the dependent tasks it hosts; the named task itself runs all its iterations on every hosted client."""
+    import asyncio
+
+    from esrally.client import context as client_context
+    from harness.common import StubCfg
+
+    named_clients = 2
+    n_iter = concrete(fresh_int("iterations_of_the_named_task", 1, 2))
+    long_run = 400
+    named = track.Task("named", track.Operation("named-op", "verif-op"), clients=named_clients, warmup_iterations=0, iterations=n_iter, completes_parent=True)
+    dependent = track.Task("dependent", track.Operation("dep-op", "verif-op"), clients=1, warmup_iterations=0, iterations=long_run)
+    matrix = driver.Allocator([track.Parallel([named, dependent])]).allocations
+    # which of the three clients this worker hosts: at least one client of the named task
+    mask = concrete(fresh_int("clients_hosted_by_this_worker", 1, 7))
+    hosted = [c for c in range(3) if mask >> c & 1]
+    if not any(c < named_clients for c in hosted):
+        observe("(worker without a client of the named task: completion arrives by CompleteCurrentTask, see inductive_step)", True)
+        return
+    ca = driver.ClientAllocations()
+    for c in hosted:
+        ca.add(c, matrix[c])
+    calls = collections.Counter()
+
+    class EsStub(client_context.RequestContextHolder):
+        def __init__(self, client_id):
+            self.client_id = client_id
+
+        async def close(self):
+            pass
+
+    class Factory:
+        def __init__(self, hosts, options, distribution_version=None, distribution_flavor=None):
+            pass
+
+        def create_async(self, api_key=None, client_id=None):
+            return EsStub(client_id)
+
+    class ClientNs:
+        EsClientFactory = Factory
+
+    class Source:
+        infinite = True
+
+        def partition(self, i, n):
+            return self
+
+        def params(self):
+            return {}
+
+    class TrackNs:
+        @staticmethod
+        def operation_parameters(t, task):
+            return Source()
+
+        def __getattr__(self, name):
+            return getattr(track, name)
+
+    class Rn:
+        completed = None
+        percent_completed = None
+
+        def __init__(self, op_type):
+            pass
+
+        async def __aenter__(self):
+            return self
+
+        async def __aexit__(self, *a):
+            return False
+
+        async def __call__(self, es, params):
+            calls[es["default"].client_id] += 1
+            es["default"].on_request_start()
+            await asyncio.sleep(0)
+            es["default"].on_request_end()
+            return {"weight": 1, "unit": "ops"}
+
+    class Hosts:
+        all_hosts = {"default": [{"host": "localhost", "port": 9200}]}
+
+    cfg = StubCfg({("driver", "profiling"): False, ("driver", "assertions"): False, ("system", "async.debug"): False, ("client", "hosts"): Hosts,
+                   ("client", "options"): {"default": {}}, ("mechanic", "distribution.version"): None, ("mechanic", "distribution.flavor"): None})
+    contexts = {c: type("Ctx", (), {"api_key": None})() for c in hosted}
+    complete = threading.Event()
+    row = [r for r in range(len(matrix[0])) if any(isinstance(matrix[c][r], driver.TaskAllocation) for c in hosted)][0]
+    with shadowed(driver, (), extra={"client": ClientNs, "track": TrackNs()}), shadowed(driver.runner, (), extra={"runner_for": Rn}):
+        sampler = driver.Sampler(start_timestamp=time.perf_counter())
+        adapter = actors.REAL["AsyncIoAdapter"](cfg, None, ca.tasks(row), sampler, threading.Event(), complete, "continue", contexts, 0)
+        asyncio.run(adapter.run())
+    core.trace("requests", sum(calls.values()))
+    core.note("hosted clients / requests per client", (hosted, dict(calls)))
+    observe("the worker's run sets `complete` once its clients of the named task have finished (also when other clients of that task live elsewhere)",
+            complete.is_set())
+    for c in hosted:
+        if c < named_clients:
+            observe("client %d of the named task runs all its iterations" % c, calls[c] == n_iter)
+        else:
+            observe("the dependent task on this worker ends when the named task is done here, not after its own %d iterations" % long_run, calls[c] < long_run)
+
+
+
 HARNESSES = [
     Harness("initial_state", initial_state, "bounded-exhaustive", lambda tier: [{"shape": sh} for sh in SHAPES], reads=READS, stubs=STUBS,
             doc="H0: initial state satisfies INV"),
@@ -791,4 +895,11 @@ HARNESSES.append(Harness("executor_seam", c04.completion_seam, "symbolic",
                          lambda tier: [{"completes": c, "any": a} for (c, a) in ((False, False), (True, False), (False, True))],
                          reads=[driver.AsyncExecutor.__call__], stubs=c04.STUBS, real_valued=True,
                          doc="assume/guarantee seam: the real AsyncExecutor honours the executor contract used by the actor harnesses (shared with C04)"))
+HARNESSES.append(Harness("adapter_completion_seam", adapter_completion_seam, "bounded-exhaustive", lambda tier: [{}],
+                         reads=[actors.REAL["AsyncIoAdapter"].run, driver.AsyncExecutor.__call__],
+                         stubs=["EsClientFactory, track.operation_parameters, runner registry (stub runner yielding to the event loop once per request)"],
+                         assumptions=["runs on a real event loop and the real clock (nothing symbolic: the finite family of client subsets a worker can host)"],
+                         bounds={"element": "parallel of a completed-by task with 2 clients and a dependent task with 1 client", "hosted clients": "every subset of the 3 clients",
+                                 "iterations of the named task": "1..2"},
+                         doc="executor contract (3) on the real AsyncIoAdapter for workers hosting only some clients of the completed-by task"))
 BUDGET = {"quick": 170, "thorough": 1200}
